@@ -17,8 +17,10 @@
 (*   lang. sys.  [tag, script, lang, req, opt]   req = 65535: no required  *)
 (*               feature; opt = sequence of 0-based feature indices        *)
 (*   feature     [tag, lk]      lk = sequence of 0-based lookup indices    *)
-(*   lookup      [ty, rules]    rules in priority order (first match wins, *)
-(*               i.e. subtables / ligature sets flattened in their order)  *)
+(*   lookup      [ty, flags, rules, cls, bases]   rules in priority order  *)
+(*               (first match wins, i.e. subtables / ligature sets         *)
+(*               flattened in their order); flags: lookup flags; cls:      *)
+(*               class-based pair subtables; bases: base anchors           *)
 (*       GSUB 1  single            rule <<from, to>>                       *)
 (*       GSUB 2  multiple          rule <<from, to1, to2, ...>>            *)
 (*       GSUB 4  ligature          rule <<out, first, second, ...>>        *)
@@ -29,7 +31,7 @@
 (*   table       [present, sl, fl, ll]                                     *)
 (*   kern        [present, subs], subtable [horiz, min, cross, over,       *)
 (*               pairs], pair <<left, right, value>>                       *)
-(*   font file   [cm, widths, marks, gsub, gpos, kern, read]                *)
+(*   font file   [cm, widths, marks, ligs, gsub, gpos, kern, read]          *)
 (*               cm = cmap subtables (below), read = the font went through *)
 (*               Write/Read                                                *)
 (***************************************************************************)
@@ -40,6 +42,7 @@ Max2(a, b) == IF a > b THEN a ELSE b
 
 NoTable == [present |-> FALSE, sl |-> <<>>, fl |-> <<>>, ll |-> <<>>]
 NoKern  == [present |-> FALSE, subs |-> <<>>]
+Lk(ty, flags, rules) == [ty |-> ty, flags |-> flags, rules |-> rules, cls |-> <<>>, bases |-> <<>>]
 
 ---------------------------------------------------------------------------
 (* cmap: each character through the best subtable; unmapped -> glyph 0.    *)
@@ -104,71 +107,147 @@ Intended(sl, r) ==
       ELSE IF D # {} THEN D ELSE 1..Len(sl)
 
 ---------------------------------------------------------------------------
-(* Lookup application, no flags: scan from the left; at each position the  *)
-(* first matching rule applies; continue after the consumed glyphs.        *)
+(* Lookup application: scan from the left; at each position the first     *)
+(* matching subtable / rule applies; continue after the consumed glyphs.   *)
+(* (OpenType chapter 2, GSUB, GPOS; DESIGN.md appendix A.2-A.4.)           *)
+(*                                                                         *)
+(* GDEF: present iff the font has mark glyphs; class mark = F.marks, class *)
+(* ligature = F.ligs, class base = every other glyph id >= 2.  A lookup    *)
+(* with flags ("base", "lig", "mark" = IgnoreBaseGlyphs, IgnoreLigatures,  *)
+(* IgnoreMarks) is applied as if the glyphs of these classes were absent:  *)
+(* it does not act on them and its input sequences skip them.  The filter  *)
+(* is the lookup's own: no flags, nothing ignored - whatever was applied   *)
+(* before.                                                                 *)
 FirstRule(rules, P(_)) ==
   LET M == {k \in 1..Len(rules) : P(rules[k])} IN IF M = {} THEN 0 ELSE Min(M)
 
-ApplySingle(rules, seq) ==
-  [i \in 1..Len(seq) |->
-     LET k == FirstRule(rules, LAMBDA r : r[1] = seq[i].g)
-     IN  IF k = 0 THEN seq[i] ELSE [seq[i] EXCEPT !.g = rules[k][2]]]
+ClassOf(F, g) ==
+  IF F.marks = <<>> THEN "none"
+  ELSE IF g \in ToSet(F.marks) THEN "mark"
+  ELSE IF g \in ToSet(F.ligs) THEN "lig"
+  ELSE IF g >= 2 THEN "base" ELSE "none"
 
-LigMatches(r, seq, p) ==
-  LET n == Len(r) - 1
-  IN  n >= 1 /\ p + n - 1 <= Len(seq) /\ \A j \in 1..n : seq[p + j - 1].g = r[j + 1]
+Keep(F, lk, g) == lk.flags = <<>> \/ ClassOf(F, g) \notin ToSet(lk.flags)
+
+\* the first kept glyph at or after p (Len(seq) + 1: none)
+RECURSIVE NextKept(_, _, _, _)
+NextKept(F, lk, seq, p) ==
+  IF p > Len(seq) THEN Len(seq) + 1 ELSE IF Keep(F, lk, seq[p].g) THEN p ELSE NextKept(F, lk, seq, p + 1)
 
 TextOf(seq) == FoldLeft(LAMBDA acc, e : acc \o e.t, <<>>, seq)
 
-RECURSIVE ScanLig(_, _, _)
-ScanLig(rules, seq, p) ==
-  IF p > Len(seq) THEN seq
-  ELSE LET k == FirstRule(rules, LAMBDA r : LigMatches(r, seq, p))
-       IN  IF k = 0 THEN ScanLig(rules, seq, p + 1)
-           ELSE LET n   == Len(rules[k]) - 1
-                    lig == [seq[p] EXCEPT !.g = rules[k][1], !.t = TextOf(SubSeq(seq, p, p + n - 1))]
-                IN  ScanLig(rules, SubSeq(seq, 1, p - 1) \o <<lig>> \o SubSeq(seq, p + n, Len(seq)), p + 1)
+ApplySingle(F, lk, seq) ==
+  [i \in 1..Len(seq) |->
+     LET k == IF Keep(F, lk, seq[i].g) THEN FirstRule(lk.rules, LAMBDA r : r[1] = seq[i].g) ELSE 0
+     IN  IF k = 0 THEN seq[i] ELSE [seq[i] EXCEPT !.g = lk.rules[k][2]]]
 
-RECURSIVE ScanPair(_, _, _)
-ScanPair(rules, seq, p) ==
-  IF p >= Len(seq) THEN seq
-  ELSE LET k == FirstRule(rules, LAMBDA r : r[1] = seq[p].g /\ r[2] = seq[p + 1].g)
-       IN  IF k = 0 THEN ScanPair(rules, seq, p + 1)
-           ELSE LET r  == rules[k]
-                    s1 == [seq EXCEPT ![p].a = @ + r[3], ![p].x = @ + r[4]]
-                IN  IF r[5] = 1
-                      THEN ScanPair(rules, [s1 EXCEPT ![p + 1].a = @ + r[6]], p + 2)
-                      ELSE ScanPair(rules, s1, p + 1)
+\* the positions of the components of ligature rule r from p on (<<>>: no match)
+RECURSIVE LigPos(_, _, _, _, _, _)
+LigPos(F, lk, r, seq, acc, j) ==
+  IF j > Len(r) THEN acc
+  ELSE LET q == NextKept(F, lk, seq, acc[Len(acc)] + 1)
+       IN  IF q > Len(seq) \/ seq[q].g # r[j] THEN <<>> ELSE LigPos(F, lk, r, seq, Append(acc, q), j + 1)
+
+LigMatch(F, lk, r, seq, p) ==
+  IF Len(r) < 2 \/ seq[p].g # r[2] THEN <<>> ELSE LigPos(F, lk, r, seq, <<p>>, 3)
+
+\* the ligature takes the text of its components; the ignored glyphs inside the span are
+\* moved, in order, directly behind it and are not looked at again by this lookup
+RECURSIVE ScanLig(_, _, _, _)
+ScanLig(F, lk, seq, p) ==
+  IF p > Len(seq) THEN seq
+  ELSE IF ~Keep(F, lk, seq[p].g) THEN ScanLig(F, lk, seq, p + 1)
+  ELSE LET k == FirstRule(lk.rules, LAMBDA r : LigMatch(F, lk, r, seq, p) # <<>>)
+       IN  IF k = 0 THEN ScanLig(F, lk, seq, p + 1)
+           ELSE LET m    == LigMatch(F, lk, lk.rules[k], seq, p)
+                    last == m[Len(m)]
+                    comp == [j \in 1..Len(m) |-> seq[m[j]]]
+                    skip == SelectSeq([j \in 1..(last - p + 1) |-> p + j - 1], LAMBDA q : q \notin ToSet(m))
+                    lig  == [seq[p] EXCEPT !.g = lk.rules[k][1], !.t = TextOf(comp)]
+                IN  ScanLig(F, lk, SubSeq(seq, 1, p - 1) \o <<lig>> \o [j \in 1..Len(skip) |-> seq[skip[j]]]
+                                   \o SubSeq(seq, last + 1, Len(seq)), p + 1 + Len(skip))
 
 \* multiple substitution: the first replacement glyph keeps the text, the inserted glyphs
 \* carry none (DESIGN.md appendix A); the scan continues after the inserted glyphs
-RECURSIVE ScanMulti(_, _, _)
-ScanMulti(rules, seq, p) ==
+RECURSIVE ScanMulti(_, _, _, _)
+ScanMulti(F, lk, seq, p) ==
   IF p > Len(seq) THEN seq
-  ELSE LET k == FirstRule(rules, LAMBDA r : r[1] = seq[p].g /\ Len(r) >= 2)
-       IN  IF k = 0 THEN ScanMulti(rules, seq, p + 1)
-           ELSE LET r   == rules[k]
+  ELSE LET k == IF Keep(F, lk, seq[p].g)
+                  THEN FirstRule(lk.rules, LAMBDA r : r[1] = seq[p].g /\ Len(r) >= 2) ELSE 0
+       IN  IF k = 0 THEN ScanMulti(F, lk, seq, p + 1)
+           ELSE LET r   == lk.rules[k]
                     n   == Len(r) - 1
                     new == [j \in 1..n |-> IF j = 1 THEN [seq[p] EXCEPT !.g = r[2]] ELSE Item(r[j + 1], <<>>)]
-                IN  ScanMulti(rules, SubSeq(seq, 1, p - 1) \o new \o SubSeq(seq, p + 1, Len(seq)), p + n)
+                IN  ScanMulti(F, lk, SubSeq(seq, 1, p - 1) \o new \o SubSeq(seq, p + 1, Len(seq)), p + n)
 
-\* single adjustment: every covered glyph, whatever the length of the sequence
-ApplyAdjust(rules, seq) ==
+\* single adjustment: every covered glyph the lookup does not ignore, whatever the length
+ApplyAdjust(F, lk, seq) ==
   [i \in 1..Len(seq) |->
-     LET k == FirstRule(rules, LAMBDA r : r[1] = seq[i].g)
-     IN  IF k = 0 THEN seq[i] ELSE [seq[i] EXCEPT !.a = @ + rules[k][2], !.x = @ + rules[k][3]]]
+     LET k == IF Keep(F, lk, seq[i].g) THEN FirstRule(lk.rules, LAMBDA r : r[1] = seq[i].g) ELSE 0
+     IN  IF k = 0 THEN seq[i] ELSE [seq[i] EXCEPT !.a = @ + lk.rules[k][2], !.x = @ + lk.rules[k][3]]]
+
+\* Pair adjustment.  The partner is the next glyph the lookup does not ignore.  Subtables in
+\* order: the class-based ones (lk.cls), then the glyph pairs (lk.rules).
+\* A class-based subtable [cov, c1, c2, two, m] applies iff the first glyph is covered and the
+\* classes index into the matrix; a glyph that the class definition does not list has class 0,
+\* and row / column 0 are rows / columns like any other; m[c1 + 1][c2 + 1] = <<dAdv1, dPlace1,
+\* dAdv2>>, two = 1: the subtable has value records for the second glyph.
+ClassIn(cd, g) == LET k == FirstRule(cd, LAMBDA e : e[1] = g) IN IF k = 0 THEN 0 ELSE cd[k][2]
+
+PairHit(lk, g1, g2) ==       \* <<dAdv1, dPlace1, two, dAdv2>> of the first subtable that applies, or <<>>
+  LET kc == FirstRule(lk.cls, LAMBDA st : /\ g1 \in ToSet(st.cov)
+                                           /\ ClassIn(st.c1, g1) < Len(st.m)
+                                           /\ ClassIn(st.c2, g2) < Len(st.m[ClassIn(st.c1, g1) + 1]))
+  IN  IF kc # 0
+        THEN LET st == lk.cls[kc]
+                 e  == st.m[ClassIn(st.c1, g1) + 1][ClassIn(st.c2, g2) + 1]
+             IN  <<e[1], e[2], st.two, e[3]>>
+        ELSE LET k == FirstRule(lk.rules, LAMBDA r : r[1] = g1 /\ r[2] = g2)
+             IN  IF k = 0 THEN <<>> ELSE <<lk.rules[k][3], lk.rules[k][4], lk.rules[k][5], lk.rules[k][6]>>
+
+RECURSIVE ScanPair(_, _, _, _)
+ScanPair(F, lk, seq, p) ==
+  IF p >= Len(seq) THEN seq
+  ELSE IF ~Keep(F, lk, seq[p].g) THEN ScanPair(F, lk, seq, p + 1)
+  ELSE LET q == NextKept(F, lk, seq, p + 1)
+           h == IF q > Len(seq) THEN <<>> ELSE PairHit(lk, seq[p].g, seq[q].g)
+       IN  IF h = <<>> THEN ScanPair(F, lk, seq, p + 1)
+           ELSE LET s1 == [seq EXCEPT ![p].a = @ + h[1], ![p].x = @ + h[2]]
+                IN  IF h[3] = 1
+                      THEN ScanPair(F, lk, [s1 EXCEPT ![q].a = @ + h[4]], q + 1)
+                      ELSE ScanPair(F, lk, s1, q)
+
+\* Mark-to-base attachment: lk.rules = marks <<glyph, class, x, y>>, lk.bases = <<glyph, x0, y0,
+\* x1, y1, ...>> (one anchor per mark class).  The mark is attached to the nearest preceding
+\* glyph of the base coverage: its offset becomes the distance of the two anchors, less the
+\* advances from the base up to the mark (the pen has moved on by then).
+SumAdv(seq, b, p) == FoldLeft(LAMBDA acc, e : acc + e.a, 0, SubSeq(seq, b, p - 1))
+
+ApplyAttach(F, lk, seq) ==
+  FoldLeft(LAMBDA s, p :
+             LET k == IF Keep(F, lk, s[p].g) THEN FirstRule(lk.rules, LAMBDA r : r[1] = s[p].g) ELSE 0
+                 B == {j \in 1..(p - 1) : FirstRule(lk.bases, LAMBDA r : r[1] = s[j].g) # 0}
+             IN  IF k = 0 \/ B = {} THEN s
+                 ELSE LET b  == Max(B)
+                          mr == lk.rules[k]
+                          br == lk.bases[FirstRule(lk.bases, LAMBDA r : r[1] = s[b].g)]
+                      IN  IF 2 * mr[2] + 3 > Len(br) THEN s
+                          ELSE [s EXCEPT ![p].x = @ + br[2 * mr[2] + 2] - mr[3] - SumAdv(s, b, p),
+                                         ![p].y = @ + br[2 * mr[2] + 3] - mr[4]],
+           seq, [i \in 1..Len(seq) |-> i])
 
 \* lookup types are numbered per table: GSUB 1 single, 2 multiple, 4 ligature; GPOS 1 single
-\* adjustment, 2 pair adjustment
-ApplyLookup(kind, lk, seq) ==
-  CASE kind = "GSUB" /\ lk.ty = 1 -> ApplySingle(lk.rules, seq)
-    [] kind = "GSUB" /\ lk.ty = 2 -> ScanMulti(lk.rules, seq, 1)
-    [] kind = "GSUB" /\ lk.ty = 4 -> ScanLig(lk.rules, seq, 1)
-    [] kind = "GPOS" /\ lk.ty = 1 -> ApplyAdjust(lk.rules, seq)
-    [] kind = "GPOS" /\ lk.ty = 2 -> ScanPair(lk.rules, seq, 1)
+\* adjustment, 2 pair adjustment, 4 mark-to-base attachment
+ApplyLookup(kind, F, lk, seq) ==
+  CASE kind = "GSUB" /\ lk.ty = 1 -> ApplySingle(F, lk, seq)
+    [] kind = "GSUB" /\ lk.ty = 2 -> ScanMulti(F, lk, seq, 1)
+    [] kind = "GSUB" /\ lk.ty = 4 -> ScanLig(F, lk, seq, 1)
+    [] kind = "GPOS" /\ lk.ty = 1 -> ApplyAdjust(F, lk, seq)
+    [] kind = "GPOS" /\ lk.ty = 2 -> ScanPair(F, lk, seq, 1)
+    [] kind = "GPOS" /\ lk.ty = 4 -> ApplyAttach(F, lk, seq)
 
 \* the selected lookups, in lookup-list order
-ApplyLookups(kind, ll, idxs, seq) == FoldLeft(LAMBDA s, i : ApplyLookup(kind, ll[i + 1], s), seq, idxs)
+ApplyLookups(kind, F, ll, idxs, seq) == FoldLeft(LAMBDA s, i : ApplyLookup(kind, F, ll[i + 1], s), seq, idxs)
 
 \* every glyph that is not a mark (GDEF glyph class 3) gets the font's advance width
 SetAdvances(widths, marks, seq) ==
@@ -195,7 +274,7 @@ StdLig(m, lr) ==
         sl |-> << [tag |-> "und-Latn-x-latn", script |-> "latn", lang |-> "",
                    req |-> IF lr = "req" THEN 0 ELSE NoFeature, opt |-> <<0>>] >>,
         fl |-> << [tag |-> "liga", lk |-> <<0>>] >>,
-        ll |-> << [ty |-> 4, rules |-> StdLigRules(m)] >>]
+        ll |-> << Lk(4, <<>>, StdLigRules(m)) >>]
 
 \* The reader gives standard ligatures to fonts that are not fixed pitch.  Documented rule
 \* (font.go): "IsFixedPitch returns true if all glyphs in the font have the same width" - all
@@ -239,7 +318,7 @@ KernTable(kern, rd) ==
   [present |-> TRUE,
    sl |-> << [tag |-> "und-Zzzz", script |-> "DFLT", lang |-> "", req |-> 0, opt |-> <<>>] >>,
    fl |-> << [tag |-> "kern", lk |-> <<0>>] >>,
-   ll |-> << [ty |-> 2, rules |-> KernRules(kern.subs, rd)] >>]
+   ll |-> << Lk(2, <<>>, KernRules(kern.subs, rd)) >>]
 
 \* the tables in force after reading the file (or for a font that never was a file)
 EffGsub(F, lr, fp) ==
@@ -255,12 +334,12 @@ EffGpos(F, rd) ==
 ---------------------------------------------------------------------------
 (* The pipeline.  gl, pl: the selected GSUB / GPOS lookup indices.         *)
 StageCmap(F, s)        == MapString(BestCmap(F), s)
-StageGsub(G, gl, seq)  == IF G.present THEN ApplyLookups("GSUB", G.ll, gl, seq) ELSE seq
+StageGsub(F, G, gl, seq) == IF G.present THEN ApplyLookups("GSUB", F, G.ll, gl, seq) ELSE seq
 StageWidths(F, seq)    == SetAdvances(F.widths, ToSet(F.marks), seq)
-StageGpos(P, pl, seq)  == IF P.present THEN ApplyLookups("GPOS", P.ll, pl, seq) ELSE seq
+StageGpos(F, P, pl, seq) == IF P.present THEN ApplyLookups("GPOS", F, P.ll, pl, seq) ELSE seq
 
 LayoutWith(F, G, P, gl, pl, s) ==
-  StageGpos(P, pl, StageWidths(F, StageGsub(G, gl, StageCmap(F, s))))
+  StageGpos(F, P, pl, StageWidths(F, StageGsub(F, G, gl, StageCmap(F, s))))
 
 Selected(T, kind, li, sw) ==
   IF T.present THEN FindLookupsSpec(T, T.sl[li], OnSet(kind, sw)) ELSE <<>>
